@@ -215,6 +215,33 @@ def s_shared_source(rng, nval):
     return _mk(b.prog, "shared_member_source", rng, nval)
 
 
+def s_nested_member_scalar(rng, nval):
+    """`Bundle inner = { s, t }; Bundle q = { inner, u };` (or the nested literal) with s - a member of the INNER bundle -
+    as the scalar of an each-operation, a filter threshold or an any()/all() threshold on q."""
+    b = B(rng)
+    s_nm, _ = b.inp()
+    t_nm, _ = b.inp()
+    u_nm, _ = b.inp()
+    if rng.random() < 0.5:
+        b.prog.append(["bun", "inner", ["B", [["v", s_nm], ["v", t_nm]]]])
+        b.prog.append(["bun", "q", ["B", [["v", "inner"], ["v", u_nm]]]])
+    else:
+        b.prog.append(["bun", "q", ["B", [["B", [["v", s_nm], ["v", t_nm]]], ["v", u_nm]]]])
+    sc = ["v", rng.choice([s_nm, s_nm, t_nm, u_nm])]
+    for i in range(rng.randint(1, 3)):
+        form = rng.choice(["each", "filter", "filterk", "any", "all"])
+        if form == "each":
+            b.prog.append(["bun", "x%d" % i, ["bb", rng.choice(["*", "+", "-"]), ["v", "q"], sc]])
+        elif form == "filter":
+            b.prog.append(["bun", "x%d" % i, ["bf", rng.choice(CMP_OPS), ["v", "q"], sc, "copy"]])
+        elif form == "filterk":
+            b.prog.append(["bun", "x%d" % i, ["bf", rng.choice(CMP_OPS), ["v", "q"], sc, ["n", rng.choice([1, 3])]]])
+        else:
+            b.prog.append(["sig", "x%d" % i, [form, rng.choice(CMP_OPS), ["v", "q"], sc]])
+    edges = {n_: list(range(-4, 8)) for n_ in (s_nm, t_nm, u_nm)}
+    return _mk(b.prog, "nested_bundle_member_as_scalar", rng, nval, small=True, edges=edges)
+
+
 def s_compose(rng, nval):
     """Compositional bundle expressions: anonymous literals and intermediate results as operands, selections as scalar
     operands / thresholds / gating conditions / literal members, int variables as constants, literal-left and compound
@@ -294,7 +321,7 @@ def s_compose(rng, nval):
 
 
 STRATA = [(s_literal, 3), (s_arith, 6), (s_filter, 5), (s_gate, 3), (s_anyall, 3), (s_select, 2), (s_chain, 4),
-          (s_shared_source, 1), (s_compose, 8)]
+          (s_shared_source, 1), (s_compose, 8), (s_nested_member_scalar, 3)]
 
 
 def gen_cases(tier, seed):
